@@ -1,0 +1,5 @@
+//go:build !verif
+
+package hamt
+
+func verifYield(string) {}
